@@ -297,6 +297,19 @@ fn issuer_history(ctx: &Ctx, case: u64, l: &mut Local) {
         if holder.is_none() && issued.payload.get("cnf").is_some() {
             l.violate(viol(case, "stale-holder-key", &format!("call#{k}"), "cnf present although this call bound no holder key".into(), json!({"input": input(), "payload": issued.payload})));
         }
+        // (1b) the protected header is what a fresh instance writes for the same arguments
+        {
+            let hdr_of = |jwt: &str| -> Value { jwt.split('.').next().and_then(|h| model::b64d(h).ok()).and_then(|b| serde_json::from_slice(&b).ok()).unwrap_or(Value::Null) };
+            let mut fresh = api::new_issuer(alg, 0, true);
+            if let Ok(f) = pipeline::issue_with(&mut fresh, &s.u, &s.strat, holder, decoys, fmt) {
+                let (a, b) = (hdr_of(&issued.parts.jwt), hdr_of(&f.parts.jwt));
+                if a != b {
+                    l.violate(viol(case, "header-differs-from-fresh-issuer", &format!("call#{k}"), "protected header of a reused issuer's result differs from a fresh issuer's".into(), json!({"input": input(), "reused": a, "fresh": b})));
+                } else {
+                    l.count("issuer.header-equal-to-fresh");
+                }
+            }
+        }
         // (2) nothing from other calls
         let texts = texts_of(&issued.parts);
         if let Some(tag) = foreign_tags(&texts, tag_owner) {
@@ -454,7 +467,10 @@ fn holder_history(ctx: &Ctx, case: u64, l: &mut Local) {
         }
         prev_kb = Some(kb.is_some());
         fp = crate::rng::mix(fp ^ (d.len() as u64) ^ ((kb.is_some() as u64) << 20));
-        let pres = match api::present(&mut holder, &sel, kb.as_ref()) {
+        let t_before = api::now();
+        let pres_out = api::present(&mut holder, &sel, kb.as_ref());
+        let t_after = api::now();
+        let pres = match pres_out {
             Outcome::Ok(p) => p,
             other => {
                 let fresh_ok = match api::holder_new(&issued.sd_jwt, cfg.fmt) {
@@ -500,6 +516,12 @@ fn holder_history(ctx: &Ctx, case: u64, l: &mut Local) {
                     Some(ka) => {
                         if let Err(e) = check_kb_shape(&parts, &ka.aud, &ka.nonce) {
                             l.violate(viol(case, "kb-shape", &format!("reused-holder {}", cfg.fmt.name()), e, json!({"input": input(), "presentation": pres})));
+                        }
+                        // its iat is the time of THIS call (not a value carried over / advanced from earlier ones)
+                        let iat = parts.kb.as_deref().and_then(|k| k.split('.').nth(1)).and_then(|p| model::b64d(p).ok()).and_then(|b| serde_json::from_slice::<Value>(&b).ok()).and_then(|v| v.get("iat").and_then(Value::as_u64));
+                        match iat {
+                            Some(i) if i + 2 >= t_before && i <= t_after + 2 => l.count("holder.kb-iat-within-call-window"),
+                            other => l.violate(viol(case, "kb-iat-not-the-time-of-this-call", &format!("reused-holder {}", cfg.fmt.name()), format!("iat={other:?}, call between {t_before} and {t_after}"), json!({"input": input()}))),
                         }
                         // NOTE: an identical KB-JWT string may legitimately recur (EdDSA signatures are
                         // deterministic; same aud, nonce, selection and second give the same JWT). A stale
